@@ -250,6 +250,10 @@ def freeze(e):
     return {"n": "freeze", "e": e}
 
 
+def struct(name, fields):
+    return {"n": "struct", "nm": name, "fs": list(fields)}
+
+
 # ---------------------------------------------------------------- printer
 def p_val(v):
     t = v["t"]
@@ -381,4 +385,6 @@ def pp(e):
         return "(%s){%s = %s}" % (pp(e["e"]), pp(e["k"]), pp(e["v"]))
     if n == "freeze":
         return "(freeze %s)" % pp(e["e"])
+    if n == "struct":
+        return "struct %s (%s)" % (e["nm"], ", ".join(e["fs"]))
     raise ValueError(n)
